@@ -56,7 +56,7 @@ pub fn case(kind: i64, shape: i64, wmode: i64, dedupe: u8) -> GraphCase {
     let mut k = 0;
     let es: Vec<(u32, u32, Option<i64>)> = edges.iter().map(|(u, v)| {
         k += 1;
-        let w = match wmode { 0 => None, 1 => Some(k as i64), _ => if k % 2 == 0 { None } else { Some(k as i64) } };
+        let w = match wmode { 0 => None, 1 => Some(k as i64), 3 => Some(if k % 2 == 1 { -(k as i64) - 5 } else { k as i64 }), _ => if k % 2 == 0 { None } else { Some(k as i64) } };
         (*u, *v, w)
     }).collect();
     GraphCase { specs, nodes, edges: es }
@@ -105,6 +105,9 @@ pub fn observe(t: &mut Toks) -> String {
     let mut f: Vec<(String, String)> = vec![];
     let mut add = |name: &str, items: Vec<String>| f.push((name.to_string(), if items.is_empty() { ".".to_string() } else { items.join(" ") }));
     let gr: &G = &g;
+    // negative weights: representable, and the shortest-path functions must answer `ContradictoryPaths` rather than panic; the
+    // weighted forms of the other algorithms are only specified for positive weights and are not called
+    let negw = g.get_all_edges().iter().any(|e| e.weight < 0.0);
     // --- one name, with an error channel
     add("get_node", one.iter().map(|x| class_opt(|| gr.get_node(*x))).collect());
     add("has_node", one.iter().map(|x| class_plain(|| gr.has_node(x))).collect());
@@ -142,6 +145,7 @@ pub fn observe(t: &mut Toks) -> String {
     add("generalized_degree_some", sets.iter().map(|s| class(|| cluster::generalized_degree(gr, Some(s)))).collect());
     for w in [false, true] {
         add(&format!("multi_source.w{}", w as u8), sets.iter().map(|s| class(|| dijkstra::multi_source(gr, w, s.clone(), None, None, false, false))).collect());
+        if negw && w { add("clustering_some.w1", vec!["skipneg".to_string()]); add("average_clustering_some.w1", vec!["skipneg".to_string()]); continue; }
         add(&format!("clustering_some.w{}", w as u8), sets.iter().map(|s| class(|| cluster::clustering(gr, w, Some(s)))).collect());
         add(&format!("average_clustering_some.w{}", w as u8), sets.iter().map(|s| class(|| cluster::average_clustering(gr, w, Some(s), true))).collect());
     }
@@ -194,6 +198,12 @@ pub fn observe(t: &mut Toks) -> String {
         let s = w as u8;
         nullary(&format!("all_pairs.w{}", s), class(|| dijkstra::all_pairs(gr, w, None, None, false, true)));
         nullary(&format!("all_pairs_basic.w{}", s), class(|| dijkstra::all_pairs(gr, w, None, None, false, false)));
+        if negw && w {
+            for name in ["betweenness", "closeness", "clustering", "average_clustering", "modularity", "eigenvector", "louvain_partitions", "louvain_communities"] {
+                nullary(&format!("{}.w1", name), "skipneg".to_string());
+            }
+            continue;
+        }
         nullary(&format!("betweenness.w{}", s), format!("{} {}", class(|| betweenness::betweenness_centrality(gr, w, false)), class(|| betweenness::betweenness_centrality(gr, w, true))));
         nullary(&format!("closeness.w{}", s), format!("{} {}", class(|| closeness::closeness_centrality(gr, w, false)), class(|| closeness::closeness_centrality(gr, w, true))));
         nullary(&format!("clustering.w{}", s), class(|| cluster::clustering(gr, w, None)));
@@ -210,7 +220,9 @@ pub fn all_requests() -> Vec<String> {
     let mut out = vec![];
     // every duplicate-edge policy under which the shape can be built (a shape with a repeated pair
     // cannot be built on a single-edge graph under the `Error` policy)
-    for kind in 0..8 { for shape in 0..NUM_SHAPES { for w in 0..3 { for dedupe in 0..3u8 {
+    for kind in 0..8 { for shape in 0..NUM_SHAPES { for w in 0..4 { for dedupe in 0..3u8 {
+        // weight mode 3 (negative weights) only matters where there are edges, and is kept to the small shapes
+        if w == 3 && (shape > 11 || shape_edges(shape).1.is_empty()) { continue; }
         let c = case(kind, shape, w, dedupe);
         if c.build().is_ok() { out.push(format!("degen {}", c.tokens())); }
     } } } }
